@@ -22,19 +22,23 @@ import (
 	"strconv"
 	"strings"
 	"sync"
+	"sync/atomic"
 	"time"
 
 	"go.uber.org/zap"
 	"google.golang.org/grpc"
 	"google.golang.org/grpc/codes"
 	"google.golang.org/grpc/status"
+	"google.golang.org/protobuf/types/known/timestamppb"
 
 	"github.com/ozontech/seq-db/consts"
 	"github.com/ozontech/seq-db/disk"
 	"github.com/ozontech/seq-db/logger"
+	"github.com/ozontech/seq-db/pkg/seqproxyapi/v1"
 	"github.com/ozontech/seq-db/pkg/storeapi"
 	"github.com/ozontech/seq-db/proxy/search"
 	"github.com/ozontech/seq-db/proxy/stores"
+	"github.com/ozontech/seq-db/proxyapi"
 	"github.com/ozontech/seq-db/seq"
 
 	"verifharness/internal/vh"
@@ -294,6 +298,10 @@ type fake struct {
 
 const gateTimeout = 1500 * time.Millisecond
 
+// once a handful of gated calls had to be released by the timeout the point is made (the implementation does not
+// fail fast any more); later gates open at once so that a broken tree does not cost 1.5 s per case
+var totalTimeouts atomic.Int32
+
 func (f *fake) Search(ctx context.Context, in *storeapi.SearchRequest, _ ...grpc.CallOption) (*storeapi.SearchResponse, error) {
 	w := f.w
 	w.mu.Lock()
@@ -306,12 +314,15 @@ func (f *fake) Search(ctx context.Context, in *storeapi.SearchRequest, _ ...grpc
 		return nil, status.Error(codes.Unavailable, "no script")
 	}
 	if gated {
-		select {
-		case <-ctx.Done():
-		case <-time.After(gateTimeout):
-			w.mu.Lock()
-			w.timeouts++
-			w.mu.Unlock()
+		if totalTimeouts.Load() < 8 {
+			select {
+			case <-ctx.Done():
+			case <-time.After(gateTimeout):
+				totalTimeouts.Add(1)
+				w.mu.Lock()
+				w.timeouts++
+				w.mu.Unlock()
+			}
 		}
 	}
 	switch c.kind {
@@ -933,7 +944,8 @@ type result struct {
 	timeouts int
 }
 
-func runCase(c tcase) result {
+// buildCase installs the scripts of a case into a fresh world and returns the ingestor over the fakes
+func buildCase(c tcase) (*world, *search.Ingestor, byte) {
 	w := newWorld()
 	w.hint = hintStr(c.hint)
 	hotTier := byte('h')
@@ -965,7 +977,11 @@ func runCase(c tcase) result {
 		clients["z0_0"] = &fake{host: "z0_0", w: w}
 		w.search["z0_0"] = call{kind: 'r', code: 'n', total: 1, ids: []id2{{777, 7}}}
 	}
-	si := search.NewIngestor(cfg, clients)
+	return w, search.NewIngestor(cfg, clients), hotTier
+}
+
+func runCase(c tcase) result {
+	w, si, hotTier := buildCase(c)
 	inv := invert(si.VerifSourceByClient())
 	res := result{w: w, hotTier: hotTier}
 	func() {
@@ -1024,6 +1040,68 @@ func (w *world) snapshot() *world {
 		fetchReq: copyMap(w.fetchReq), fetchHint: copyMap(w.fetchHint), delivered: copyMap(w.delivered), fetchFail: copyMap(w.fetchFail), timeouts: w.timeouts}
 }
 
+// runAPI sends the case through proxyapi's Search handler (doSearch, processSearchErrors, makeProtoDocs)
+func runAPI(c tcase) (impl string, w *world) {
+	w0, si, _ := buildCase(c)
+	api := proxyapi.VerifNewGrpcV1C16(si, 20*time.Second)
+	order := seqproxyapi.Order_ORDER_DESC
+	if c.rev {
+		order = seqproxyapi.Order_ORDER_ASC
+	}
+	req := &seqproxyapi.SearchRequest{
+		Query:  &seqproxyapi.SearchQuery{Query: "message:x", From: timestamppb.New(time.UnixMilli(0)), To: timestamppb.New(time.UnixMilli(1 << 40))},
+		Size:   int64(c.size),
+		Offset: int64(c.off),
+		Order:  order,
+	}
+	func() {
+		defer func() {
+			if r := recover(); r != nil {
+				impl = "panic"
+			}
+		}()
+		resp, err := api.Search(context.Background(), req)
+		switch {
+		case err != nil:
+			if status.Code(err) == codes.InvalidArgument {
+				impl = "err invalid-argument"
+			} else if status.Code(err) == codes.Internal {
+				impl = "err internal"
+			} else {
+				impl = "err " + status.Code(err).String()
+			}
+		case resp.Error != nil && resp.Error.Code == seqproxyapi.ErrorCode_ERROR_CODE_TOO_MANY_FRACTIONS_HIT && len(resp.Docs) == 0:
+			impl = "ok refused tmf"
+		default:
+			var ids []id2
+			var toks []int
+			for _, d := range resp.Docs {
+				id, perr := seq.FromString(d.Id)
+				if perr != nil {
+					impl = "bad-id " + d.Id
+					return
+				}
+				ids = append(ids, id2{uint64(id.MID), uint64(id.RID)})
+				toks = append(toks, tokenOf(d.Data))
+			}
+			code := seqproxyapi.ErrorCode_ERROR_CODE_UNSPECIFIED
+			if resp.Error != nil {
+				code = resp.Error.Code
+			}
+			partial := resp.PartialResponse
+			if partial != (code == seqproxyapi.ErrorCode_ERROR_CODE_PARTIAL_RESPONSE) || (!partial && code != seqproxyapi.ErrorCode_ERROR_CODE_NO) {
+				impl = fmt.Sprintf("inconsistent-flags partial=%v code=%v", partial, code)
+				return
+			}
+			impl = fmt.Sprintf("ok partial=%s total=%d ids=%s docs=%s", vh.B(partial), resp.Total, fmtIDs(ids), vh.JoinInts(toks))
+		}
+	}()
+	w0.mu.Lock()
+	w = w0.snapshot()
+	w0.mu.Unlock()
+	return impl, w
+}
+
 // sharedIDs: does some ID occur in the answers of two different shards of the same tier?
 func sharedIDs(t [][]call) bool {
 	seen := map[id2]int{}
@@ -1042,14 +1120,8 @@ func sharedIDs(t [][]call) bool {
 
 // toModel renders the driver request and the implementation's canonical answer.
 // compareDocs=false when the order of the per-source map or the unstable sort can legitimately change the result.
-func toModel(c tcase, r result) (req, impl string, comparable bool, tags []string) {
-	withSrc := !(sharedIDs(c.hot) || sharedIDs(c.cold))
-	wh, wc := normWinner(c.hot, c.wh), normWinner(c.cold, c.wc)
-	// sources asked for documents, their recorded deliveries
-	w := r.w
-	var order []int
-	var behav []string
-	unknownStreams := 0
+// fetchTrace: the sources that were asked for documents and what each delivered, as the model's oracle arguments
+func fetchTrace(w *world) (order []int, behav []string, unknownStreams int) {
 	for _, h := range vh.SortedKeys(w.fetchReq) {
 		order = append(order, srcNat(h))
 	}
@@ -1077,6 +1149,14 @@ func toModel(c tcase, r result) (req, impl string, comparable bool, tags []strin
 		}
 		behav = append(behav, fmt.Sprintf("%d:%s", srcNat(h), fmtEvs(w.delivered[h])))
 	}
+	return
+}
+
+func toModel(c tcase, r result) (req, impl string, comparable bool, tags []string) {
+	withSrc := !(sharedIDs(c.hot) || sharedIDs(c.cold))
+	wh, wc := normWinner(c.hot, c.wh), normWinner(c.cold, c.wc)
+	w := r.w
+	order, behav, unknownStreams := fetchTrace(w)
 	comparable = unknownStreams <= 1
 	fetch := c.fetch
 	req = fmt.Sprintf("full %s %s %d %d %s %s %d %s %s %s", fmtTier(c.hot, arrivalOrder(c.hot, wh)), fmtTier(c.cold, arrivalOrder(c.cold, wc)),
@@ -1163,7 +1243,15 @@ func checkProperty(c tcase, r result) []finding {
 	var fs []finding
 	bad := func(site, class, what string) { fs = append(fs, finding{site, class, what}) }
 	w := r.w
-	if r.timeouts > 0 {
+	winnerAsked := func(tier byte, t [][]call, wn int) bool {
+		wn = normWinner(t, wn)
+		if wn < 0 {
+			return false
+		}
+		k, rep := shardKind(t[wn])
+		return k == 'z' || w.called[hostName(tier, wn, rep)] > 0
+	}
+	if r.timeouts > 0 && (winnerAsked(r.hotTier, c.hot, c.wh) || winnerAsked('c', c.cold, c.wc)) {
 		bad("proxy/search/ingestor.go:searchStores", "no-fail-fast", "a short-circuit answer (wants-old-data / too-many-fractions) did not end the request: the other shards were still awaited")
 	}
 	if strings.HasPrefix(r.kind, "err-with-data") {
@@ -1489,14 +1577,53 @@ func main() {
 		}
 	} else {
 		cases = append(cases, smallCases(rng, o.Thorough())...)
-		n := o.Pick(1500, 20000)
+		n := o.Pick(1500, 60000)
 		for i := 0; i < n; i++ {
 			cases = append(cases, genCase(rng))
 		}
 	}
 
+	chAPI := vh.NewChannel("api", "real proxyapi Search handler (doSearch, processSearchErrors, makeProtoDocs) over the real Ingestor and the same fakes vs SV.ProxyRead.api: status error / refused / response with partial flag, IDs and document bytes; non-trivial = some replica failed/refused, a store reported errors, or a fetch stream misbehaved")
 	skipped := 0
 	for _, c := range cases {
+		{
+			implAPI, wa := runAPI(c)
+			order, behav, unk := fetchTrace(wa)
+			shared := sharedIDs(c.hot) || sharedIDs(c.cold)
+			if unk <= 1 && !(shared && len(wa.fetchReq) > 0) && wa.timeouts == 0 {
+				wh, wc := normWinner(c.hot, c.wh), normWinner(c.cold, c.wc)
+				reqAPI := fmt.Sprintf("api %s %s %d %d %s %d %s %s", fmtTier(c.hot, arrivalOrder(c.hot, wh)), fmtTier(c.cold, arrivalOrder(c.cold, wc)),
+					c.off, c.size, vh.B(c.rev), c.hint, vh.JoinInts(order), vh.JoinStrs(behav, "|"))
+				chAPI.Add(reqAPI, implAPI, !faultFree(c), "answer="+strings.Join(strings.Fields(implAPI)[:min(2, len(strings.Fields(implAPI)))], "-"))
+			}
+			if strings.HasPrefix(implAPI, "ok partial=0") {
+				// presented as complete: every shard of the consulted tier answered and no answering store reported errors
+				tier, tn := c.hot, byte('h')
+				if c.hotRead {
+					tn = 'r'
+				}
+				for h, n := range wa.called {
+					if h[0] == 'c' && n > 0 {
+						tier, tn = c.cold, 'c'
+					}
+				}
+				for sIdx := range tier {
+					got, nerr := false, 0
+					for rep, cl := range tier[sIdx] {
+						if cl.kind == 'r' && cl.code == 'n' && wa.called[hostName(tn, sIdx, rep)] > 0 {
+							got, nerr = true, nerr+cl.nerr
+						}
+					}
+					if !got || nerr > 0 {
+						rep.Violate(vh.Violation{Site: "proxyapi/grpc_v1.go:doSearch", Class: "incomplete-as-complete", What: fmt.Sprintf("the API response is unflagged (error code NO, partial_response=false) although shard %d of the consulted tier did not answer cleanly (answered=%v, store-reported errors=%d)", sIdx, got, nerr), Replay: []string{c.String()}})
+						break
+					}
+				}
+			}
+			if strings.HasPrefix(implAPI, "inconsistent-flags") {
+				rep.Violate(vh.Violation{Site: "proxyapi/grpc_search.go:Search", Class: "inconsistent-partial-flag", What: implAPI, Replay: []string{c.String()}})
+			}
+		}
 		r := runCase(c)
 		req, impl, comparable, tags := toModel(c, r)
 		faulty := !faultFree(c)
@@ -1514,6 +1641,7 @@ func main() {
 		rep.Note("full: %d cases not compared with the model (two or more fetch streams carried unrequested documents, or duplicated IDs across shards were fetched: map iteration order / unstable sort decide) - checked by the oracle only", skipped)
 	}
 	rep.AddChannel(chFull, o.Driver)
+	rep.AddChannel(chAPI, o.Driver)
 	rep.AddOracle(orc)
 
 	if !replaying {
@@ -1567,7 +1695,7 @@ func componentChannels(rep *vh.Report, o vh.Opts, rng *vh.RNG) {
 			}
 		}
 	}
-	for i := 0; i < o.Pick(300, 3000); i++ {
+	for i := 0; i < o.Pick(300, 10000); i++ {
 		t := tagTotals(genTier(rng, 3, 3, false, 30, 10, false))
 		w := pickWinner(t, rng)
 		res, to := runStores(t, w)
@@ -1659,7 +1787,7 @@ func componentChannels(rep *vh.Report, o vh.Opts, rng *vh.RNG) {
 		}
 	}
 	addMerge([]ids3{{id2{5, 1}, 0, 0}}, nil)
-	for i := 0; i < o.Pick(2000, 40000); i++ {
+	for i := 0; i < o.Pick(2000, 150000); i++ {
 		nsrc := rng.Range(2, 4)
 		var ids []ids3
 		h := []int{0, 0, 5}[rng.Intn(3)]
